@@ -129,6 +129,28 @@ def forall_guard(fx, b, prov, bi, s, frm, to):
     return None
 
 
+def low_part_of_split(b, prov, s, to):
+    """`x as u8` next to `(x >> 8 ..) as u8` of the same value in the same function: the cast takes the low part of a value that is
+    written in pieces, the discarded bits are emitted by the sibling cast (big-endian byte splitting). Truncation is the point."""
+    width = {"u8": 8, "i8": 8, "u16": 16, "i16": 16, "u32": 32, "i32": 32}.get(to)
+    if not width:
+        return None
+    me = sym.norm(sym.strip(prov.op(s["rv"]["op"])))
+    for bj in range(len(b.blocks)):
+        if not b.reachable(bj):
+            continue
+        for st in b.stmts(bj):
+            rv = st.get("rv") or {}
+            if st is s or st.get("k") != "assign" or rv.get("k") != "cast" or rv.get("to") != to:
+                continue
+            for x in sym.walk(prov.op(rv["op"])):
+                if x[0] == "bin" and x[1] == "Shr":
+                    k = sym.strip(x[3])
+                    if k[0] == "c" and k[1] == width and sym.norm(sym.strip(x[2])) == me:
+                        return "low %d bits of a value whose upper part (value >> %d) is written by a sibling cast in the same function" % (width, width)
+    return None
+
+
 def rule_narrowing(run, fx, rule, floors=True, roots=None, select=None, floor_n=40):
     run.rule(rule, "every lossy integer cast reachable from the writers (fewer bits or a sign change) has an operand that provably fits the target "
                    "(constant, masked, shifted, widened from a narrower type, bounded arithmetic), is dominated by a comparison with a fitting "
@@ -163,12 +185,13 @@ def rule_narrowing(run, fx, rule, floors=True, roots=None, select=None, floor_n=
             if k[0] == "c" and isinstance(k[1], int) and (k[1] - 1).bit_length() <= cap:
                 run.ok(rule, "%s: %s as %s — operand is a remainder modulo %d" % (b.path, frm, to, k[1]))
                 continue
-        why = forall_guard(fx, b, O.prov(b), bi, s, frm, to)
+        why = forall_guard(fx, b, O.prov(b), bi, s, frm, to) or low_part_of_split(b, O.prov(b), s, to)
         if why:
             run.ok(rule, "%s: %s as %s — %s" % (b.path, frm, to, why))
             continue
         import overflow
-        iv = overflow.Intervals(fx, b, O.prov(b)).op(s["rv"]["op"])
+        import guards
+        iv = overflow.Intervals(fx, b, O.prov(b)).at(guards.branch_conditions(b, O.prov(b)), bi).op(s["rv"]["op"])
         rng = overflow.INT.get(to)
         if iv is not None and rng is not None and rng[0] <= iv[0] and iv[1] <= rng[1]:
             run.ok(rule, "%s: %s as %s — operand in [%d, %d] by interval arithmetic" % (b.path, frm, to, iv[0], iv[1]))
